@@ -362,6 +362,10 @@ def run(scenario, params, tape, detail=False):
                 if exp is None and accepted_at is None and len(sts) >= 3:
                     exp = ("delivery-error", None)
                     probe("enqueue.busy_x3")
+                elif exp is None and accepted_at is None:
+                    # every attempt so far was answered 'busy' and the call ended (not by cancellation) before the fixed number of spaced
+                    # attempts: a busy NCP is retried, not taken for a refusal (or for an acceptance)
+                    viol.append(("C12.err", "gave-up-while-busy", f"{tag}: the NCP answered {sts} (busy) and the call ended with {out[0]} {out[1]!r} after {len(sts)} of the 3 spaced attempts"))
             if accepted_at is not None and len(sts) > 1:
                 probe("enqueue.busy_then_ok")
             if exp is None and accepted_at is not None:
